@@ -1,3 +1,220 @@
-import FAVerif.Models.Poly
+/-
+C16 — polynomial utilities are exact polynomial algebra.
+Only the property statements, one-line proofs referring to `Lemmas/Poly.lean`, non-vacuity
+examples and the regression witnesses of the three defects repaired in /repo live here.
+
+Vocabulary (defined in Lemmas/Poly.lean, characterised by `toPoly_def`, `fromRatio_def` below):
+  `toPoly cs`      the Mathlib polynomial Σ cs[i]·Xⁱ
+  `orient rev l`   `l` if `rev = false`, `l.reverse` if `rev = true` (lists with `reverse=True` are
+                   highest degree first)
+  `fromRatio rs`   prefix products rs[0]·…·rs[i] (the coefficients denoted by a ratio list)
+  `SchemeOK σ N0 n`  σ(k, N0) ≤ k for 2 ≤ k ≤ n  (a scheme never splits beyond the sub-problem;
+                   `d = 0` is allowed); `SchemeOKAll scheme n` the same for every `_N`
+  `Shipped scheme` scheme ∈ {None, horner, estrin, balanced, canonical}
+All theorems hold for every length (degree), every coefficient value, every argument, over any
+commutative ring `α` (a field where the code divides).
+-/
+import FAVerif.Lemmas.Poly
+
 namespace FAVerif.Props.C16
+open FAVerif.Poly Polynomial
+
+section Ring
+variable {α : Type} [CommRing α]
+
+/-- `toPoly cs` is the polynomial Σ cs[i]·Xⁱ. -/
+theorem toPoly_def (cs : List α) : toPoly cs = ∑ i ∈ Finset.range cs.length, C (cs.getD i 0) * X ^ i :=
+  toPoly_eq_sum cs
+
+/-- the `i`-th coefficient of `toPoly cs` is `cs[i]` (0 beyond the list) -/
+theorem toPoly_coeff (cs : List α) (i : ℕ) : (toPoly cs).coeff i = cs.getD i 0 := coeff_toPoly cs i
+
+/-- `fromRatio rs` has the prefix products as entries: `coeffs[i] = rcoeffs[0]·…·rcoeffs[i]`. -/
+theorem fromRatio_def (rs : List α) (i : ℕ) (h : i < rs.length) :
+    (fromRatio rs).length = rs.length ∧ (fromRatio rs).getD i 0 = ∏ j ∈ Finset.range (i + 1), rs.getD j 0 :=
+  ⟨fromRatio_length rs, fromRatio_getD rs i h⟩
+
+/-- **pow**: `polynomial.fast_exponent_by_squaring(x, n) = xⁿ` for every n. -/
+theorem pow (x : α) (n : ℕ) : fastPow x n = x ^ n := fastPow_eq x n
+
+/-- **pow_fpa**: `floating_point_algorithms.fast_exponent_by_squaring(ctx, x, n) = xⁿ`. -/
+theorem pow_fpa (x : α) (n : ℕ) : Fpa.fastPow x n = x ^ n := Fpa.fastPow_eq x n
+
+/-- the model's `math.comb` is the binomial coefficient -/
+theorem choose_eq (n k : ℕ) : FAVerif.Poly.choose n k = Nat.choose n k := FAVerif.Poly.choose_eq n k
+
+/-- **eval**: `polynomial.fast_polynomial(x, coeffs, reverse, scheme)` — including the
+`len(coeffs) > 500` switch to the alternative scheme and the `d == 0` branch — returns
+Σ cᵢ xⁱ (coefficients read backwards when `reverse`), for every admissible scheme. -/
+theorem eval (x : α) (cs : List α) (rev : Bool) (scheme : Option Scheme) (hne : cs ≠ [])
+    (h : ∀ s, scheme = some s → SchemeOK s (cs.length - 1) (cs.length - 1)) :
+    fastPolynomial x cs rev scheme = ∑ i ∈ Finset.range cs.length, (orient rev cs).getD i 0 * x ^ i := by
+  rw [fastPolynomial_eq x cs rev scheme hne h, evalPoly_eq_sum]; cases rev <;> simp [orient]
+
+/-- **eval_fpa**: the same for `floating_point_algorithms.fast_polynomial(ctx, x, coeffs, reverse, scheme)`. -/
+theorem eval_fpa (x : α) (cs : List α) (rev : Bool) (scheme : Option Scheme) (hne : cs ≠ [])
+    (h : ∀ s, scheme = some s → SchemeOK s (cs.length - 1) (cs.length - 1)) :
+    Fpa.fastPolynomial x cs rev scheme = ∑ i ∈ Finset.range cs.length, (orient rev cs).getD i 0 * x ^ i := by
+  rw [Fpa.fastPolynomial_eq x cs rev scheme hne h, evalPoly_eq_sum]; cases rev <;> simp [orient]
+
+/-- **schemes**: every scheme shipped with the code (Horner, Estrin = ⌊ln k⌋, balanced, canonical) is
+admissible for every size and every `_N`. -/
+theorem schemes (N0 n : ℕ) :
+    SchemeOK hornerScheme N0 n ∧ SchemeOK estrinScheme N0 n ∧ SchemeOK balancedScheme N0 n ∧
+    SchemeOK canonicalScheme N0 n :=
+  ⟨schemeOK_horner N0 n, schemeOK_estrin N0 n, schemeOK_balanced N0 n, schemeOK_canonical N0 n⟩
+
+/-- The Estrin scheme returns `d = 0` exactly for sub-problems of degree k < 3, i.e. (k ≥ 2) at
+k = 2: this is where the `d == 0` branch of `fast_polynomial` runs. -/
+theorem estrin_zero_iff (k N : ℕ) : estrinScheme k N = 0 ↔ k < 3 := estrin_zero_iff' k N
+
+/-- **eval_shipped**: with any shipped scheme (or none) both `fast_polynomial`s return Σ cᵢ xⁱ,
+no hypothesis left. -/
+theorem eval_shipped (x : α) (cs : List α) (rev : Bool) (scheme : Option Scheme) (hne : cs ≠ [])
+    (hs : Shipped scheme) :
+    fastPolynomial x cs rev scheme = ∑ i ∈ Finset.range cs.length, (orient rev cs).getD i 0 * x ^ i ∧
+    Fpa.fastPolynomial x cs rev scheme = ∑ i ∈ Finset.range cs.length, (orient rev cs).getD i 0 * x ^ i :=
+  ⟨eval x cs rev scheme hne (shipped_ok hs _ _), eval_fpa x cs rev scheme hne (shipped_ok hs _ _)⟩
+
+/-- **horner**: `floating_point_algorithms.horner(ctx, x, coeffs, reverse)` returns Σ cᵢ xⁱ
+(coefficients read backwards when `reverse`, the default). -/
+theorem horner (x : α) (cs : List α) (rev : Bool) (hne : cs ≠ []) :
+    Fpa.horner x cs rev = ∑ i ∈ Finset.range cs.length, (orient rev cs).getD i 0 * x ^ i := by
+  rw [Fpa.horner_eq x cs rev hne, evalPoly_eq_sum]; cases rev <;> simp [orient]
+
+/-- **rpoly**: `polynomial.rpolynomial(x, rcoeffs, reverse)` evaluates the polynomial whose
+coefficients are the prefix products of the ratio list — for every ratio list, zeros included. -/
+theorem rpoly (x : α) (rs : List α) (rev : Bool) (hne : rs ≠ []) :
+    rpolynomial x rs rev = ∑ i ∈ Finset.range rs.length, (fromRatio (orient rev rs)).getD i 0 * x ^ i := by
+  rw [rpolynomial_eq x rs rev hne, evalPoly_eq_sum, fromRatio_length]; cases rev <;> simp [orient]
+
+/-- **rpoly_fpa**: the same for `floating_point_algorithms.rpolynomial(ctx, x, rcoeffs, reverse)`. -/
+theorem rpoly_fpa (x : α) (rs : List α) (rev : Bool) (hne : rs ≠ []) :
+    Fpa.rpolynomial x rs rev = ∑ i ∈ Finset.range rs.length, (fromRatio (orient rev rs)).getD i 0 * x ^ i := by
+  rw [Fpa.rpolynomial_eq x rs rev hne, evalPoly_eq_sum, fromRatio_length]; cases rev <;> simp [orient]
+
+/-- **mul**: `polynomial.multiply(P, Q, reverse)` is the product polynomial. -/
+theorem mul (P Q : List α) (rev : Bool) :
+    toPoly (orient rev (multiply P Q rev)) = toPoly (orient rev P) * toPoly (orient rev Q) :=
+  multiply_spec P Q rev
+
+/-- **add**: `polynomial.add(P, Q, reverse)` is the sum polynomial. -/
+theorem add (P Q : List α) (rev : Bool) :
+    toPoly (orient rev (FAVerif.Poly.add P Q rev)) = toPoly (orient rev P) + toPoly (orient rev Q) :=
+  add_spec P Q rev
+
+/-- **deriv**: `polynomial.derivative(P, n, reverse)` is Mathlib's derivative iterated n times. -/
+theorem deriv (P : List α) (n : ℕ) (rev : Bool) :
+    toPoly (orient rev (FAVerif.Poly.derivative P n rev))
+      = (⇑(Polynomial.derivative (R := α)))^[n] (toPoly (orient rev P)) :=
+  derivative_spec P n rev
+
+/-- **taylor**: `polynomial.taylorat(P, z0, reverse)` (full size; with `reverse=True` the code ignores
+`size`) is the re-expansion about z0, Mathlib's `taylor z0 P = P.comp (X + C z0)`. -/
+theorem taylor (P : List α) (z0 : α) (rev : Bool) (size : Option ℕ) (hs : rev = false → size = none) :
+    toPoly (orient rev (taylorat P z0 rev size)) = (Polynomial.taylor z0) (toPoly (orient rev P)) :=
+  taylorat_spec P z0 rev size hs
+
+/-- **taylor_size**: with `size=k` exactly the first k Taylor coefficients are returned. -/
+theorem taylor_size (P : List α) (z0 : α) (k : ℕ) :
+    (taylorat P z0 false (some k)).length = k ∧
+    ∀ m, m < k → (taylorat P z0 false (some k)).getD m 0 = ((Polynomial.taylor z0) (toPoly P)).coeff m :=
+  taylorat_size P z0 k
+
+/-- **taylor_eval**: the docstring identity Σ C_m (z − z0)^m = Σ P_m z^m (the binomial identity). -/
+theorem taylor_eval (P : List α) (z0 z : α) :
+    ∑ m ∈ Finset.range (taylorat P z0).length, (taylorat P z0).getD m 0 * (z - z0) ^ m
+      = ∑ m ∈ Finset.range P.length, P.getD m 0 * z ^ m := by
+  rw [← evalPoly_eq_sum, ← evalPoly_eq_sum]; exact taylorat_eval P z0 z
+
+end Ring
+
+section Field
+variable {α : Type} [Field α]
+
+/-- **ratio_inverse**: `asrpolynomial` (coefficients → ratios) and the prefix-product map
+(ratios → coefficients) are mutually inverse on lists whose entries, except possibly the
+last, are non-zero (exactly where `asrpolynomial` does not divide by zero). -/
+theorem ratio_inverse (l : List α) (hne : l ≠ []) (h : ∀ c ∈ l.dropLast, c ≠ 0) :
+    fromRatio (asrpolynomial l) = l ∧ asrpolynomial (fromRatio l) = l :=
+  ⟨fromRatio_asrCore l hne h, asrCore_fromRatio l hne h⟩
+
+/-- **ratio_roundtrip**: evaluating the ratio form of a polynomial gives the polynomial:
+`rpolynomial(x, asrpolynomial(c, reverse), reverse) = Σ cᵢ xⁱ` (both modules, both flags). -/
+theorem ratio_roundtrip (x : α) (cs : List α) (rev : Bool) (hne : cs ≠ [])
+    (h : ∀ c ∈ (orient rev cs).dropLast, c ≠ 0) :
+    rpolynomial x (asrpolynomial cs rev) rev = ∑ i ∈ Finset.range cs.length, (orient rev cs).getD i 0 * x ^ i ∧
+    Fpa.rpolynomial x (asrpolynomial cs rev) rev = ∑ i ∈ Finset.range cs.length, (orient rev cs).getD i 0 * x ^ i := by
+  have := ratio_roundtrip' x cs rev hne h
+  rw [this.1, this.2, evalPoly_eq_sum]; cases rev <;> simp [orient]
+
+/-- **laurent**: `floating_point_algorithms.laurent(ctx, z, C, m, reverse, scheme)` returns
+Σ_j C[j]·z^(j+m) — all four cases (m = 0, m > 0, −m < len C, −m ≥ len C), both flags; z ≠ 0 is
+needed only when m < 0. -/
+theorem laurent (z : α) (Cs : List α) (m : ℤ) (rev : Bool) (scheme : Option Scheme)
+    (hne : Cs ≠ []) (hz : m < 0 → z ≠ 0) (h : SchemeOKAll scheme (Cs.length - 1)) :
+    Fpa.laurent z Cs m rev scheme
+      = ∑ j ∈ Finset.range Cs.length, (orient rev Cs).getD j 0 * z ^ ((j : ℤ) + m) :=
+  Fpa.laurent_sum z Cs m rev scheme hne hz h
+
+/-- every shipped scheme satisfies the hypothesis of `laurent` -/
+theorem laurent_shipped (scheme : Option Scheme) (hs : Shipped scheme) (n : ℕ) : SchemeOKAll scheme n :=
+  fun s h N0 => shipped_ok hs N0 n s h
+
+variable [DecidableEq α]
+
+/-- **divmod**: for a non-zero divisor `polynomial.divmod(P, D, reverse)` returns (Q, R) with
+P = Q·D + R and deg R < deg D (trailing zeros of the inputs are immaterial); hence Q and R are
+Mathlib's Euclidean quotient and remainder. -/
+theorem divmod (P D : List α) (rev : Bool) (hD : toPoly (orient rev D) ≠ 0) :
+    ∃ Q R, FAVerif.Poly.divmod P D rev = some (Q, R) ∧
+      toPoly (orient rev P) = toPoly (orient rev Q) * toPoly (orient rev D) + toPoly (orient rev R) ∧
+      (toPoly (orient rev R)).degree < (toPoly (orient rev D)).degree ∧
+      toPoly (orient rev Q) = toPoly (orient rev P) / toPoly (orient rev D) ∧
+      toPoly (orient rev R) = toPoly (orient rev P) % toPoly (orient rev D) :=
+  divmod_spec P D rev hD
+
+/-- `divmod` fails (IndexError at `D[-1]`) exactly for the zero divisor. -/
+theorem divmod_none_iff (P D : List α) (rev : Bool) :
+    FAVerif.Poly.divmod P D rev = none ↔ toPoly (orient rev D) = 0 :=
+  divmod_none_iff' P D rev
+
+end Field
+
+/-! ### Regression witnesses (kernel-evaluated on the model; the same inputs are replayed on the
+real code from corpus/C16 on every run).  Before the `fix:` commits in /repo the results were
+`0`, `3`, `([1], [])` and `([1, 1], [1, 0, -1])`. -/
+
+/-- 6dbe6ab: the `d == 0` branch (`range(1, N + 1)`) keeps the top term: Estrin scheme on x². -/
+theorem regression_d0_branch :
+    fastPolynomial (1 : ℤ) [0, 0, 1] false (some estrinScheme) = 1 ∧
+    Fpa.fastPolynomial (1 : ℤ) [0, 0, 1] false (some estrinScheme) = 1 ∧
+    fastPolynomial (2 : ℤ) [1, 2, 3, 4, 5, 6, 7, 8] true (some estrinScheme) = 502 := by decide
+
+/-- 6aba85f: `horner(reverse=True)` reads coeffs[1..N]: 1·x + 2 at x = 2. -/
+theorem regression_horner_reverse :
+    Fpa.horner (2 : ℤ) [1, 2] true = 4 ∧ Fpa.horner (2 : ℤ) [1, 2, 3] true = 11 := by decide
+
+/-- 43dcef8: `divmod` when the quotient has a zero coefficient: x² / x = x, and
+(x³ + 1) / x² = x remainder 1. -/
+theorem regression_divmod :
+    FAVerif.Poly.divmod ([0, 0, 1] : List ℚ) [0, 1] = some ([0, 1], []) ∧
+    FAVerif.Poly.divmod ([1, 0, 0, 1] : List ℚ) [0, 0, 1] = some ([0, 1], [1]) ∧
+    FAVerif.Poly.divmod ([1, 0, 0, 1] : List ℚ) [1, 0, 0] true = some ([1, 0], [1]) := by decide +kernel
+
+/-! ### Non-vacuity: the hypotheses are met by concrete non-trivial instances. -/
+
+example : SchemeOK estrinScheme 7 7 ∧ estrinScheme 2 7 = 0 ∧ estrinScheme 7 7 = 1 ∧ estrinScheme 8 8 = 2 :=
+  ⟨(schemes 7 7).2.1, by decide, by decide, by decide⟩
+example : Shipped (some estrinScheme) := Or.inr (Or.inr (Or.inl rfl))
+example : ([1, 2, 3, 4, 5, 6, 7, 8] : List ℤ) ≠ [] := by decide
+example : ∀ c ∈ ([3, -2, 5, 0] : List ℚ).dropLast, c ≠ 0 := by decide +kernel
+example : asrpolynomial ([3, -2, 5, 0] : List ℚ) = [3, -2/3, -5/2, 0] := by decide +kernel
+example : (-3 : ℤ) < 0 → (2 : ℚ) ≠ 0 := fun _ => by decide +kernel
+example : toPoly (orient false ([0, 1] : List ℚ)) ≠ 0 := by
+  intro h; have := congrArg (fun p => p.coeff 1) h; simp at this
+example : taylorat ([1, 2, 3] : List ℤ) 2 = [17, 14, 3] := by decide
+example : multiply ([1, 2] : List ℤ) [3, 0, 1] = [3, 6, 1, 2] := by decide
+example : FAVerif.Poly.derivative ([1, 2, 3, 4] : List ℤ) 2 = [6, 24] := by decide
+
 end FAVerif.Props.C16
